@@ -245,6 +245,17 @@ def run(ctx: Ctx):
     ctx.exhaustive(f"{cnt} one-tape machines: all deterministic tables over q0,q1 (+final qf), tape alphabet "
                    f"{{0,#}}, ≤2 rows" + (" and a random quarter of the 3-row tables" if thorough else "")
                    + " × inputs '', '0', '00': 8 next() calls of the simulation, verdict pair with native budget 10")
+    cnt = 0
+    for table in E.tiny_nondet_tables("0#"):
+        cnt += 1
+        if not thorough and cnt % 3 != ctx.seed % 3:
+            continue
+        m = E.mntm1_from_lists(kw2, table, swap=bool(cnt & 1))
+        for w in ("0", "00"):
+            check_sim(ctx, m, w, 10, "exhaustive_nondet")
+            check_pair(ctx, m, w, 12, "exhaustive_nondet")
+    ctx.exhaustive(("all" if thorough else "a third (by seed) of the") + f" {cnt} nondeterministic one-tape tables (q0 with two "
+                   "distinct results on '0', optional row on '#', q1 a dead end without row or with one row), inputs '0','00'")
     kwt = dict(states={"q0", "qf"}, input_symbols={"0"}, tape_symbols={"0", "#"}, initial_state="q0",
                blank_symbol="#", final_states={"qf"}, n_tapes=2)
     cnt = 0
